@@ -314,6 +314,13 @@ def run_case(case, ctx):
         check_css(ctx, case["value"].strip().lower(), case["value"])
     elif k == "length":
         roundtrip_length(ctx, Decimal(case["value"]), case["unit"], "replay")
+    elif k == "zoned":
+        from odfdo.datatype import Date as _Date
+
+        dtz = datetime.fromisoformat(case["value"])
+        _Date.encode(dtz.astimezone(timezone.utc))  # the equal instant, seen from UTC, encoded first
+        ctx.check(_Date.encode(dtz) == dtz.date().isoformat(), ("C18", "Date.encode", "value"),
+                  f"Date.encode({dtz!r}) = {_Date.encode(dtz)!r}, that zone's day is {dtz.date().isoformat()!r}", case)
     elif k == "duration-decode":
         from odfdo.datatype import Duration
 
@@ -390,6 +397,22 @@ def run_shard(ctx):
                 A(roundtrip_datetime, ctx, dt, "lattice")
                 if dt.microsecond == 0 and dt.tzinfo is None:
                     A(roundtrip_date, ctx, dt, "lattice-datetime-as-date")
+            # one instant seen from several time zones: each encoding is that zone's own calendar day / clock time, whatever was
+            # encoded before (equal instants compare equal in Python)
+            if ctx.shard == 0:
+                from odfdo.datatype import Date as _Date, DateTime as _DateTime
+
+                for base in (datetime(2024, 6, 30, 23, 30, tzinfo=timezone.utc), datetime(2000, 1, 1, 0, 0, tzinfo=timezone.utc),
+                             datetime(1999, 12, 31, 12, 0, tzinfo=timezone.utc), datetime(2024, 2, 29, 22, 15, 30, tzinfo=timezone.utc)):
+                    for off in (0, 120, -120, 840, -720, 330, 0, -1, 1):
+                        dtz = base.astimezone(timezone(timedelta(minutes=off)))
+                        case = {"kind": "zoned", "value": dtz.isoformat()}
+                        ctx.ev(); ctx.count("same-instant-other-zone"); ctx.nontrivial(("zoned", dtz.isoformat()))
+                        A(ctx.check, _Date.encode(dtz) == dtz.date().isoformat(), ("C18", "Date.encode", "value"),
+                          f"Date.encode({dtz!r}) = {_Date.encode(dtz)!r}, that zone's day is {dtz.date().isoformat()!r}", case)
+                        enc = _DateTime.encode(dtz)
+                        A(ctx.check, _DateTime.decode(enc) == dtz and _DateTime.decode(enc).utcoffset() == dtz.utcoffset(), ("C18", "DateTime", "roundtrip"),
+                          f"DateTime.encode({dtz!r}) = {enc!r} decodes to {_DateTime.decode(enc)!r}", case)
             durs = lattice_durations()
             for td in _mine(ctx, durs):
                 ctx.ev(); ctx.count("duration-lattice"); ctx.nontrivial(("dur", td.days, td.seconds))
